@@ -44,7 +44,7 @@ func Load(dir string, patterns ...string) (*Prog, error) {
 	}
 	env := append(os.Environ(), "GOFLAGS=-mod=mod", "GOPROXY=off", "GOWORK=off")
 	cfg := &packages.Config{
-		Mode:  packages.LoadAllSyntax,
+		Mode:  packages.LoadAllSyntax | packages.NeedModule,
 		Dir:   dir,
 		Env:   env,
 		Tests: false,
@@ -287,6 +287,8 @@ func (p *Prog) shorten(s string) string {
 		s = strings.ReplaceAll(s, p.ModPath+"/publish", "publish")
 		s = strings.ReplaceAll(s, p.ModPath, lastElem(p.ModPath))
 	}
+	s = strings.ReplaceAll(s, "github.com/c2FmZQ/ech/internal/hpke", "hpke")
+	s = strings.ReplaceAll(s, "github.com/c2FmZQ/ech/publish", "publish")
 	s = strings.ReplaceAll(s, "github.com/c2FmZQ/ech/dns", "dns")
 	s = strings.ReplaceAll(s, "github.com/c2FmZQ/ech", "ech")
 	s = strings.ReplaceAll(s, "golang.org/x/crypto/cryptobyte", "cryptobyte")
